@@ -634,13 +634,15 @@ fn mk_fs(s: &Sess) -> Result<Fs, fatfs::Error<crate::dev::DevError>> {
     let c = s.clock.clone();
     let a = s.cfg.update_accessed;
     let lossy = fatfs::LossyOemCpConverter::new();
-    let opts = match (s.cfg.opt_order + s.counters.epochs as u8) % 6 {
-        0 if !a => fatfs::FsOptions::new().time_provider(c),
-        1 => fatfs::FsOptions::new().update_accessed_date(a).time_provider(c),
-        2 => fatfs::FsOptions::new().time_provider(c).update_accessed_date(a),
-        3 => fatfs::FsOptions::new().strict(true).update_accessed_date(a).time_provider(c).oem_cp_converter(lossy),
-        4 => fatfs::FsOptions::new().update_accessed_date(a).oem_cp_converter(lossy).time_provider(c).strict(true),
-        _ => fatfs::FsOptions::new().update_accessed_date(a).strict(true).oem_cp_converter(lossy).time_provider(c),
+    // `strict` only concerns the boot signature / jump bytes, which every volume used here has: both values must behave alike
+    let st = s.cfg.opt_order % 12 < 6;
+    let opts = match (s.cfg.opt_order % 6).wrapping_add(s.counters.epochs as u8) % 6 {
+        0 if !a && st => fatfs::FsOptions::new().time_provider(c),
+        1 => fatfs::FsOptions::new().update_accessed_date(a).time_provider(c).strict(st),
+        2 => fatfs::FsOptions::new().strict(st).time_provider(c).update_accessed_date(a),
+        3 => fatfs::FsOptions::new().strict(st).update_accessed_date(a).time_provider(c).oem_cp_converter(lossy),
+        4 => fatfs::FsOptions::new().update_accessed_date(a).oem_cp_converter(lossy).time_provider(c).strict(st),
+        _ => fatfs::FsOptions::new().update_accessed_date(a).strict(st).oem_cp_converter(lossy).time_provider(c),
     };
     fatfs::FileSystem::new(s.dev.handle(), opts)
 }
